@@ -46,7 +46,7 @@ fn code(o: DatasetOrdering) -> u8 {
 }
 
 // @harness c05_compare_matches_reference
-// @props C05
+// @props C05:quick
 // @tier quick
 // @timeout 300
 // @functions ComparisonDataset::compare, compare_same_identity, compare_different_identity, ClockAccuracy::cmp_numeric
@@ -69,7 +69,7 @@ fn c05_compare_matches_reference() {
 }
 
 // @harness c05_compare_antisymmetric
-// @props C05
+// @props C05:quick
 // @tier quick
 // @timeout 300
 // @functions ComparisonDataset::compare, DatasetOrdering::as_ordering
@@ -89,7 +89,7 @@ fn c05_compare_antisymmetric() {
 }
 
 // @harness c05_as_ordering_total
-// @props C05
+// @props C05:quick
 // @tier quick
 // @timeout 120
 // @functions DatasetOrdering::as_ordering
